@@ -216,7 +216,9 @@ def run_case(case):
             if rr.sched is not None:
                 h.update(rr.sched.digest().encode())
                 stats["scheduler_decisions"] += rr.sched.steps
-            h.update(repr((type(rr.exc).__name__, len(rr.items))).encode())
+            h.update(repr((type(rr.exc).__name__, len(rr.items))
+                          if iface != "tfdata" else
+                          rr.exc is not None).encode())
         probes["iface_" + iface] += 1
         probes["shuffled" if case["shuffle"] else "unshuffled"] += 1
         for d in case["damage"]:
